@@ -95,6 +95,7 @@ func (t OpType) IsMultipleOpField() bool {
 
 type OpcodeSet struct {
 	Type                     *runtime.Type
+	BoxedValue               bool // the program expects the address of the interface word, not the word ( see isBoxedValue )
 	NoescapeKeyCode          *Opcode
 	EscapeKeyCode            *Opcode
 	InterfaceNoescapeKeyCode *Opcode
